@@ -63,6 +63,8 @@ func genPlanSrv(t *simrt.Tape, tier string) interface{} {
 			p.Scripts = append(p.Scripts, []Step{{Op: "auto"}, st, st, st})
 		}
 	}
+	p.Conf.WarmUp = p.Conf.Full && p.Conf.Transport != "inproc" && t.Draw(3) == 0
+	p.Conf.OtherBuilder = p.Conf.Full && t.Draw(3) == 0
 	p.Conf.EarlySender = p.Conf.Full && t.Draw(4) == 0
 	p.Conf.AutoPing = p.Conf.Full && t.Draw(3) == 0
 	p.LingerS = []int{5, 70, 200}[t.Draw(3)]
